@@ -51,6 +51,7 @@ type spCase struct {
 	r     Resp
 	lex   int
 	entry string // xml | post
+	spKey string // "" = the RSA key the assertions are encrypted to | ec | none (then nothing can be decrypted: wrap b-spkey)
 }
 
 var scMethods = []string{"urn:oasis:names:tc:SAML:2.0:cm:holder-of-key", "urn:oasis:names:tc:SAML:2.0:cm:sender-vouches", "absent", "urn:oasis:names:tc:SAML:2.0:cm:BEARER"}
@@ -75,6 +76,13 @@ func (c *Ctx) runSP(k spCase) string {
 	xmlBytes := elBytes(b.responseEl(k.r))
 	setGlobals(k.cfg, k.now)
 	s := c.realSP(k.cfg)
+	switch k.spKey {
+	case "ec":
+		ek := c.key("ec256")
+		s.Key, s.Certificate = ek.Key, ek.Cert
+	case "none":
+		s.Key, s.Certificate = nil, nil
+	}
 	impl := safely(func() string {
 		u := mustURL(k.url)
 		if k.entry == "post" {
@@ -186,6 +194,14 @@ func (c *Ctx) genC02() {
 	c.lattice(cfg, now, 0)
 	c.shapeLattice(cfg, now)
 	{
+		// the SP's other configuration switches (custom audience / request-ID hooks that accept, IdP-initiated allowed,
+		// no explicit entity ID) must not matter to any validity window
+		cfgS := baseCfg()
+		cfgS.AudV, cfgS.ReqV, cfgS.AllowIDP, cfgS.EntityID = "t", "t", true, ""
+		c.lattice(cfgS, now+1234, 50)
+		c.shapeLattice(cfgS, now+1234)
+	}
+	{
 		cfg2 := baseCfg()
 		cfg2.Delay, cfg2.Skew = 600000, 5000
 		c.shapeLattice(cfg2, now+4242)
@@ -206,6 +222,9 @@ func (c *Ctx) genC02() {
 		cfg := baseCfg()
 		tc := tolConfigs[c.rng.Intn(len(tolConfigs))]
 		cfg.Delay, cfg.Skew = tc[0], tc[1]
+		if c.chance(0.3) {
+			cfg.AudV, cfg.ReqV, cfg.AllowIDP = c.pick("n", "t"), c.pick("n", "t"), c.chance(0.5)
+		}
 		nowi := now + int64(c.rng.Intn(1000000))
 		r := baseResp(cfg, nowi)
 		r.II = place(nowi-cfg.Delay, 1, c.rng.Intn(5)%4+0)
@@ -319,6 +338,27 @@ func (c *Ctx) genC03() {
 		}
 		if f.absent != nil {
 			variants(func(cfg SPCfg, r *Resp) { f.absent(cfg, r, ""); c.count("c03-single", f.name+":absent") })
+		}
+	}
+	// the optional attributes of an Issuer element (Format, qualifiers) say nothing about who issued the message: every
+	// Format with a correct, a wrong and a near-miss value, on the Response, on the Assertion
+	for _, format := range []string{"urn:oasis:names:tc:SAML:2.0:nameid-format:entity", "urn:oasis:names:tc:SAML:1.1:nameid-format:unspecified", "urn:oasis:names:tc:SAML:2.0:nameid-format:persistent", "urn:example:custom-format"} {
+		for _, where := range []string{"response", "assertion"} {
+			for _, i := range []int{0, 1, 5} {
+				for _, signed := range []string{"none", "idp"} {
+					cfg := baseCfg()
+					r := baseResp(cfg, now)
+					r.Sig = signed
+					v := nearMiss(cfg.IDPEntity)[i]
+					if where == "response" {
+						r.Issuer, r.IssuerFormat = sp(v), format
+					} else {
+						r.Entries[0].Issuer, r.Entries[0].IssuerFormat = sp(v), format
+					}
+					c.count("c03-issuer-format", where+":"+nmName[i])
+					run(cfg, r, cfg.Acs)
+				}
+			}
 		}
 	}
 	// destination = received-at URL but not the ACS URL
